@@ -13,6 +13,18 @@
 // lives in fixed arrays prepared on the root goroutine.
 package simrt
 
+import (
+	"sync/atomic"
+	"time"
+)
+
+// stray counts goroutines started through Go outside a simulated run that have
+// not finished yet. A library that returns before its own goroutines are done
+// (which is a defect, but one the harness must survive) would otherwise leave
+// them executing instrumented code when the next run starts, where they would
+// be mistaken for the token holder.
+var stray int64
+
 const (
 	MaxTasks    = 96
 	MaxSwitches = 192
@@ -137,6 +149,7 @@ func (s *sched) rand() uint64 {
 //
 //go:norace
 func Run(sc *Schedule, root func()) *Result {
+	Quiesce(5 * time.Second)
 	s := &sched{sc: sc, res: &Result{}, rng: sc.Seed | 1, rootCh: make(chan struct{})}
 	t0 := &task{id: 0, wake: make(chan struct{}), started: true, parent: -1, prio: sc.Prio[0]}
 	s.tasks[0] = t0
@@ -183,7 +196,8 @@ func joinAll(s *sched, me *task) {
 //go:norace
 func Go(f func()) {
 	if !active {
-		go f()
+		atomic.AddInt64(&stray, 1)
+		go strayMain(f)
 		return
 	}
 	s := cur
@@ -201,6 +215,24 @@ func Go(f func()) {
 	go taskMain(s, t, f) // a real go statement: the parent->child edge is visible to the race detector
 	// creation is a scheduling point
 	s.maybePreempt(-2, true)
+}
+
+func strayMain(f func()) {
+	defer atomic.AddInt64(&stray, -1)
+	f()
+}
+
+// Quiesce waits (up to the given time) until no goroutine started outside a run
+// is still alive; it reports whether that was achieved.
+func Quiesce(max time.Duration) bool {
+	deadline := time.Now().Add(max)
+	for atomic.LoadInt64(&stray) > 0 {
+		if time.Now().After(deadline) {
+			return false
+		}
+		time.Sleep(200 * time.Microsecond)
+	}
+	return true
 }
 
 //go:norace
